@@ -662,9 +662,11 @@ class Collection(object):
         upserted_id = None
         num_updated = 0
         num_matched = 0
+        update_document = document
         for existing_document in itertools.chain(self._iter_documents(spec), [None]):
-            # Every matched document gets its own copy of the values the update carries.
-            document = helpers.patch_datetime_awareness_in_document(document)
+            # Every matched document gets its own copy of the values the update carries,
+            # taken from the update as given (an operator may edit what an earlier one stored).
+            document = helpers.patch_datetime_awareness_in_document(update_document)
             # we need was_insert for the setOnInsert update operation
             was_insert = False
             # the sentinel document means we should do an upsert
